@@ -295,9 +295,12 @@ def delField (key : Field) : List (Field × Col) → Except MErr (List (Field ×
 /-- `isinstance(subfield, str) and subfield.startswith("__")` -/
 def Field.hidden (f : Field) : Bool := f.isStr && f.text.startsWith "__"
 
-/-- `_flatten_encoded_evaled_factor(name, values)` for a dict of plain columns -/
+/-- `_flatten_encoded_evaled_factor(name, values)` for a dict of plain columns. Every key yields a column: since the
+repair "a category level whose name starts with `__` keeps its indicator column" the reserved `__` keys of a dict-valued
+factor are dropped by `map_dict` BEFORE encoding (`Model/FactorEncode.lean`: `mapDict`), never from the encoded
+columns, whose keys may be level labels. (`Field.hidden` stays for that earlier step.) -/
 def flattenDict (expr : String) (reduced : Bool) (fmt : Fmt) (cols : List (Field × Col)) : List Item :=
-  (cols.filter (fun fc => !fc.1.hidden)).foldl
+  cols.foldl
     (fun d fc => itemSet d ⟨fmt.format expr fc.1.text, ⟨expr, some fc.1, reduced⟩, fc.2⟩) []
 
 /-- `_encode_evaled_factor(factor, spec, drop_rows, reduced_rank)` downstream of the encoder -/
